@@ -481,6 +481,23 @@ func (w *world) alphabet0(thorough bool) []op {
 			}{str([]any{blobByV[v], vouchersByV[v]}), time.Unix(exp.Unix(), 0)}
 		}})
 	}
+	// re-registration with another blob and a LONGER time-to-live than the plain registration above: a later,
+	// shorter registration must replace it (blob and expiry), and a registration for one GUID never touches the
+	// blob of another whatever the order of their expiries
+	for v := 0; v < 2; v++ {
+		out = append(out, op{fmt.Sprintf("SetRVBlob(g%d,+2h,other blob)", v), func(w *world) {
+			exp := w.now.Add(2 * time.Hour)
+			if err := w.db.SetRVBlob(w.ctx, vouchersByV[v], blobByV[2], exp); err != nil {
+				w.viol("setrvblob-fails", "SetRVBlob: %v", err)
+				return
+			}
+			w.m.blobs[guidOf(9, v)] = struct {
+				repr string
+				exp  time.Time
+			}{str([]any{blobByV[2], vouchersByV[v]}), time.Unix(exp.Unix(), 0)}
+		}})
+	}
+	out = append(out, op{"Clock(+90m)", func(w *world) { w.setNow(w.now.Add(90 * time.Minute)) }})
 	out = append(out, op{"ReplaceVoucher(g0->g2)", func(w *world) {
 		err := w.db.ReplaceVoucher(w.ctx, guidOf(9, 0), vouchersByV[2])
 		_, oldExists := w.m.vouchers[guidOf(9, 0)]
